@@ -214,8 +214,34 @@ def normalize_chunks(c):
             outs.append([[int(v) for v in ax] for ax in r])
         except Exception as ex:  # a rejected specification is fine
             outs.append(("raised", type(ex).__name__))
+    # the same specification with the byte limit taken from the configuration (array.chunk-size) instead of the argument:
+    # the limit in effect when the call is made is what counts (cases with other limits run before and after in this process)
+    config_agrees = True
+    if limit is not None:
+        import dask
+
+        try:
+            with dask.config.set({"array.chunk-size": f"{limit}B"}), warnings.catch_warnings():
+                warnings.simplefilter("ignore")
+                r = f(spec, shape=shape, limit=None, dtype=dtype, previous_chunks=prev)
+            outs.append([[int(v) for v in ax] for ax in r])
+        except Exception as ex:
+            outs.append(("raised", type(ex).__name__))
+        # ... and the same specification again under ANOTHER configured limit: what counts is the configuration in effect at the call
+        def both(lim):
+            res = []
+            for kw, cfg in ((dict(limit=lim), {}), (dict(limit=None), {"array.chunk-size": f"{lim}B"})):
+                try:
+                    with dask.config.set(cfg), warnings.catch_warnings():
+                        warnings.simplefilter("ignore")
+                        res.append([[int(v) for v in ax] for ax in f(spec, shape=shape, dtype=dtype, previous_chunks=prev, **kw)])
+                except Exception as ex:
+                    res.append(("raised", type(ex).__name__))
+            return res
+        a, b = both(4 * limit)
+        config_agrees = a == b
     first = outs[0]
-    agree = all(o == first for o in outs)
+    agree = all(o == first for o in outs) and config_agrees
     if isinstance(first, tuple):
         return dict(c, out={"raised": 1, "chunks": []}, forms_agree=agree)
     return dict(c, out={"raised": 0, "chunks": first}, forms_agree=agree, all_forms=[o if not isinstance(o, tuple) else list(o) for o in outs])
